@@ -117,6 +117,13 @@ def build_tree(ctx, case):
     sizes = case['sizes']
     levels, names = level_names(sizes)
     parents = symbolic_parents(ctx, sizes)
+    if case.get('alias') and len(sizes) > 1:
+        # node labels are only unique within a level: let one node carry
+        # the label of a node of the level above (any branch)
+        li = 1 + ctx.choice('alias_level', len(sizes) - 1)
+        ci = ctx.choice('alias_node', sizes[li])
+        pj = ctx.choice('alias_of', sizes[li - 1])
+        names[li][ci] = names[li - 1][pj]
     data = tree_data(levels, names, parents)
     return levels, names, parents, data
 
